@@ -31,6 +31,7 @@ type Item struct {
 	K   string `json:"k"`
 	M   int64  `json:"m,omitempty"`   // write: marker; save/rbto: save-point name id
 	Chk bool   `json:"chk,omitempty"` // write/read: return the statement's error; child: return the child's error
+	Rcv bool   `json:"rcv,omitempty"` // child: the call is wrapped in a recover(); a panic of the child is swallowed
 	B   *Blk   `json:"b,omitempty"`   // child
 }
 
@@ -128,6 +129,7 @@ var (
 	panicVals []*panicVal
 	envs      = map[Cfg]*env{}
 	workDir   string
+	envGen    int
 )
 
 type panicVal struct{ id int64 }
@@ -144,7 +146,8 @@ func getEnv(c Cfg) *env {
 	if e, ok := envs[c]; ok {
 		return e
 	}
-	name := fmt.Sprintf("db_p%v_n%v_s%v_r%v.sqlite", c.Prep, c.NoNest, c.SkipDef, c.Report)
+	envGen++
+	name := fmt.Sprintf("db_p%v_n%v_s%v_r%v_%d.sqlite", c.Prep, c.NoNest, c.SkipDef, c.Report, envGen)
 	path := filepath.Join(workDir, name)
 	os.Remove(path)
 	dsn := "file:" + path + "?_busy_timeout=2000"
@@ -233,11 +236,24 @@ func (r *runner) body(h *gorm.DB, b *Blk, log *[]Obs) error {
 			}
 		case "child":
 			o := Obs{K: "child"}
+			recovered := false
 			err := func() (err error) {
 				returned := false
 				defer func() {
-					if !returned { // a panic is passing through Transaction
-						o.Ret = Cls{K: "panic", Code: r.curPanic}
+					if returned {
+						return
+					}
+					// a panic is passing through Transaction
+					o.Ret = Cls{K: "panic", Code: r.curPanic}
+					if it.Rcv {
+						if p := recover(); p != nil {
+							recovered = true
+							if pv, ok := p.(*panicVal); !ok || pv != panicVals[r.curPanic] {
+								o.Ret = Cls{K: "panic", Code: -9}
+								r.notes = append(r.notes, fmt.Sprintf("foreign panic: %v", p))
+							}
+						}
+					} else {
 						*log = append(*log, o)
 					}
 				}()
@@ -245,9 +261,11 @@ func (r *runner) body(h *gorm.DB, b *Blk, log *[]Obs) error {
 				returned = true
 				return
 			}()
-			o.Ret = classify(err)
+			if !recovered {
+				o.Ret = classify(err)
+			}
 			*log = append(*log, o)
-			if it.Chk && err != nil {
+			if !recovered && it.Chk && err != nil {
 				return err
 			}
 		}
@@ -378,10 +396,10 @@ func run(in Input) Observed {
 	otx, _, _ := e.rec.Counters()
 	obs.OpenTx = int64(otx)
 	if obs.OpenTx != 0 || obs.InUse != 0 {
-		// a leaked transaction would block every later case: drop the pool's connections
-		r.notes = append(r.notes, "leak: closing idle connections")
-		e.sqlDB.SetMaxIdleConns(0)
-		e.sqlDB.SetMaxIdleConns(2)
+		// a leaked transaction keeps its connection and SQLite's write lock for ever: later
+		// cases of this configuration get a new database file and a new pool
+		r.notes = append(r.notes, "leak: transaction or connection left open; database abandoned")
+		delete(envs, in.Cfg)
 	}
 	rows, err := e.fresh.Query("SELECT m FROM markers ORDER BY m")
 	lib.Must(err)
@@ -446,7 +464,7 @@ func progTerm(b *Blk) string {
 		case "rbto":
 			out = lib.App("RbTo", lib.Z(it.M), out)
 		case "child":
-			out = lib.App("Child", progTerm(it.B), lib.Bool(it.Chk), out)
+			out = lib.App("Child", progTerm(it.B), lib.Bool(it.Chk), lib.Bool(it.Rcv), out)
 		}
 	}
 	return out
@@ -535,7 +553,12 @@ func (g *gen) blk(depth, maxDepth int, edge bool) Blk {
 		case c < 16:
 			if depth < maxDepth {
 				cb := g.blk(depth+1, maxDepth, edge)
-				b.Items = append(b.Items, Item{K: "child", B: &cb, Chk: r.Chance(1, 2)})
+				it := Item{K: "child", B: &cb, Chk: r.Chance(1, 2), Rcv: r.Chance(1, 3)}
+				if it.Rcv && r.Bool() { // recovered panics are only interesting when there is one
+					cb.Out, cb.E = "panic", g.esent%16
+					g.esent++
+				}
+				b.Items = append(b.Items, it)
 			} else {
 				b.Items = append(b.Items, g.write())
 			}
@@ -596,6 +619,9 @@ func shapeBlk(b *Blk, sb *strings.Builder) {
 		}
 		if it.Chk {
 			sb.WriteByte('!')
+		}
+		if it.Rcv {
+			sb.WriteByte('^')
 		}
 	}
 	sb.WriteString(b.Out[:1] + "}")
@@ -668,7 +694,7 @@ func smallTrees(depth int, g *gen) []Blk {
 	for _, out := range []string{"nil", "err", "panic"} {
 		for pre := 0; pre < 2; pre++ {
 			for post := 0; post < 2; post++ {
-				mk := func(child *Blk, chk bool) {
+				mk := func(child *Blk, chk, rcv bool) {
 					b := Blk{Items: []Item{}, Out: out}
 					if out != "nil" {
 						b.E = int64(depth)
@@ -677,17 +703,20 @@ func smallTrees(depth int, g *gen) []Blk {
 						b.Items = append(b.Items, Item{K: "write", Chk: true})
 					}
 					if child != nil {
-						b.Items = append(b.Items, Item{K: "child", B: child, Chk: chk})
+						b.Items = append(b.Items, Item{K: "child", B: child, Chk: chk, Rcv: rcv})
 					}
 					if post == 1 {
 						b.Items = append(b.Items, Item{K: "write", Chk: true})
 					}
 					outs = append(outs, b)
 				}
-				mk(nil, false)
+				mk(nil, false, false)
 				for _, k := range kids {
-					mk(k, true)
-					mk(k, false)
+					mk(k, true, false)
+					mk(k, false, false)
+					if k.Out == "panic" || len(k.Items) > 0 {
+						mk(k, false, true)
+					}
 				}
 			}
 		}
@@ -706,6 +735,19 @@ func cloneBlk(b *Blk, next *int64) Blk {
 		}
 		if it.B != nil {
 			cb := cloneBlk(it.B, next)
+			c.Items[i].B = &cb
+		}
+	}
+	return c
+}
+
+// copyBlk deep-copies a tree.
+func copyBlk(b *Blk) Blk {
+	c := Blk{Items: make([]Item, len(b.Items)), Out: b.Out, E: b.E}
+	for i, it := range b.Items {
+		c.Items[i] = it
+		if it.B != nil {
+			cb := copyBlk(it.B)
 			c.Items[i].B = &cb
 		}
 	}
@@ -776,6 +818,7 @@ func main() {
 	// enclosing function is made to return the child's error, resp. the fault is moved.
 	faulted := func(kind string, in Input, free Observed, k int, phase string) {
 		in.Fault, in.Phase = k, phase
+		in.Body = copyBlk(&in.Body)
 		if !in.Cfg.Report && (free.Ops[k].K == "save" || free.Ops[k].K == "rbto") {
 			return
 		}
@@ -798,15 +841,15 @@ func main() {
 		g := &gen{r: r.Fork()}
 		trees := smallTrees(2, g)
 		d3 := smallTrees(3, g)
-		for i := 0; i < 1500; i++ {
+		for i := 0; i < 600; i++ {
 			trees = append(trees, d3[r.Intn(len(d3))])
 		}
 		for ti, t := range trees {
 			for ci, c := range cfgs {
-				if (ti+ci)%4 == 3 {
+				if (ti+ci)%8 == 4 {
 					c.Report = false
 				}
-				if (ti+ci)%3 != 0 && ti >= 12 { // every tree under >= 2 configurations, the smallest under all
+				if (ti+ci)%4 != 0 && ti >= 12 { // every tree under 2 configurations, the smallest under all
 					continue
 				}
 				var next int64
